@@ -138,11 +138,12 @@ type c18Req struct {
 }
 
 type c18Run struct {
-	ch    *zsim.Choices
-	cur   map[int]*c18Req // task -> request being served
-	solo  *c18Req
-	reqs  []*c18Req
-	probe *[][]byte
+	ownLoggerInside bool // a middleware derives a logger of its own for the inner handlers
+	ch              *zsim.Choices
+	cur             map[int]*c18Req // task -> request being served
+	solo            *c18Req
+	reqs            []*c18Req
+	probe           *[][]byte
 }
 
 type c18Sink struct{ r *c18Run }
@@ -254,7 +255,15 @@ func (r *c18Run) final() http.Handler {
 
 type mwf = func(http.Handler) http.Handler
 
-func (r *c18Run) chain(parent zerolog.Logger, picks []int, accessAt int) http.Handler {
+func (r *c18Run) chain(parent zerolog.Logger, picks []int, accessAt, accessAt2, hookAt int) http.Handler {
+	// a middleware that gives the request a logger of its own, derived with Hook
+	hookMW := func(next http.Handler) http.Handler {
+		return http.HandlerFunc(func(w http.ResponseWriter, req *http.Request) {
+			q := r.request()
+			l := hlog.FromRequest(req).Hook(c18ReqHook{q.i})
+			next.ServeHTTP(w, req.WithContext(l.WithContext(req.Context())))
+		})
+	}
 	field := []mwf{
 		hlog.URLHandler("url"), hlog.MethodHandler("method"), hlog.RequestHandler("request"),
 		hlog.RemoteAddrHandler("ip"), hlog.RemoteIPHandler("ip_only"), hlog.UserAgentHandler("ua"),
@@ -274,13 +283,22 @@ func (r *c18Run) chain(parent zerolog.Logger, picks []int, accessAt int) http.Ha
 	var mws []mwf
 	mws = append(mws, hlog.NewHandler(parent))
 	for k, p := range picks {
-		if k == accessAt {
+		if k == accessAt || k == accessAt2 {
 			mws = append(mws, access)
+		}
+		if k == hookAt {
+			mws = append(mws, hookMW)
 		}
 		mws = append(mws, field[p%len(field)])
 	}
 	if accessAt >= len(picks) {
 		mws = append(mws, access)
+	}
+	if accessAt2 >= len(picks) {
+		mws = append(mws, access)
+	}
+	if hookAt >= len(picks) {
+		mws = append(mws, hookMW)
 	}
 	var h http.Handler = r.final()
 	for i := len(mws) - 1; i >= 0; i-- {
@@ -344,8 +362,13 @@ func hostOnly(hp string) string {
 func (r *c18Run) checkFields(q *c18Req, picks []int) string {
 	// every event of the request, wherever in the chain it was logged from (the innermost
 	// handler, or the AccessHandler callback further out): all handlers update the one
-	// logger of the request in place, so each of their fields is on every event
+	// logger of the request in place, so each of their fields is on every event. (Not so
+	// when a middleware of the chain gives the inner handlers a logger of their own: then
+	// only the innermost events carry everything.)
 	for k := range q.ref {
+		if r.ownLoggerInside && k > 0 {
+			break
+		}
 		if v := r.checkEvent(q, picks, q.ref[k]); v != "" {
 			return fmt.Sprintf("event %d: %s", k, v)
 		}
@@ -404,8 +427,23 @@ func mkParent(kind int, w io.Writer) zerolog.Logger {
 		return zerolog.New(w).With().Str("pad", strings.Repeat("q", 600)).Str("svc", "api").Logger()
 	case 5:
 		return zerolog.New(w).With().Str("pad", strings.Repeat("q", 1500)).Logger()
+	case 6:
+		// hooks added one call at a time: the hooks slice ends up with spare capacity
+		return zerolog.New(w).Hook(c18NopHook{}).Hook(c18NopHook{}).Hook(c18NopHook{})
 	}
 	return zerolog.New(w)
+}
+
+type c18NopHook struct{}
+
+func (c18NopHook) Run(e *zerolog.Event, l zerolog.Level, m string) {}
+
+// c18ReqHook is a hook a middleware installs on the logger of one request (a trace id).
+type c18ReqHook struct{ i int }
+
+func (h c18ReqHook) Run(e *zerolog.Event, l zerolog.Level, m string) {
+	zsim.Yield("request hook")
+	e.Int("hk_req", h.i)
 }
 
 func (c18World) Run(prop string, ch *zsim.Choices, trace bool) *RunResult {
@@ -414,6 +452,7 @@ func (c18World) Run(prop string, ch *zsim.Choices, trace bool) *RunResult {
 	defer func() { zerolog.TimestampFunc = oldTS }()
 	summary := ""
 	hasAccess := false
+	nAccess := 0
 	var probeBefore, probeAfter [][]byte
 	main := func() {
 		s := zsim.S
@@ -421,19 +460,34 @@ func (c18World) Run(prop string, ch *zsim.Choices, trace bool) *RunResult {
 		zerolog.DefaultContextLogger = nil
 		zerolog.TimestampFunc = func() time.Time { return refTime }
 		sink := c18Sink{r}
-		pk := ch.Intn(6)
+		pk := ch.Intn(7)
 		parent := mkParent(pk, sink)
 		np := ch.Intn(8)
 		var picks []int
 		for i := 0; i < np; i++ {
 			picks = append(picks, ch.Intn(15))
 		}
-		accessAt := -1
+		accessAt, accessAt2, hookAt := -1, -1, -1
 		if ch.Chance(3, 4) {
 			hasAccess = true
+			nAccess = 1
 			accessAt = ch.Intn(np + 1)
+			if ch.Chance(1, 4) {
+				// a second AccessHandler further in or out (a metrics layer and a log layer):
+				// both see the same status and size
+				if a2 := ch.Intn(np + 1); a2 != accessAt {
+					accessAt2 = a2
+					nAccess = 2
+					zsim.Probe("two_access_handlers")
+				}
+			}
 		}
-		h := r.chain(parent, picks, accessAt)
+		if ch.Chance(1, 3) {
+			hookAt = ch.Intn(np + 1)
+			r.ownLoggerInside = true
+			zsim.Probe("per_request_hook")
+		}
+		h := r.chain(parent, picks, accessAt, accessAt2, hookAt)
 		// in a third of the runs every request context already carries a logger
 		// (http.Server.BaseContext or an outer middleware): the same *Logger for all requests
 		var baseCtx context.Context
@@ -484,7 +538,7 @@ func (c18World) Run(prop string, ch *zsim.Choices, trace bool) *RunResult {
 			}
 			r.reqs = append(r.reqs, q)
 		}
-		summary = fmt.Sprintf("parent=%d handlers=%v access-at=%d requests=%d", pk, picks, accessAt, R)
+		summary = fmt.Sprintf("parent=%d handlers=%v access-at=%d,%d hook-at=%d requests=%d", pk, picks, accessAt, accessAt2, hookAt, R)
 		zsim.Log("config: %s", summary)
 		probe := func(dst *[][]byte) {
 			r.probe = dst
@@ -558,11 +612,13 @@ func (c18World) Run(prop string, ch *zsim.Choices, trace bool) *RunResult {
 				}
 			}
 			if hasAccess {
-				if len(q.access) != 1 {
-					return viol("C18.access", "request %d: the AccessHandler callback ran %d time(s)", q.i, len(q.access))
+				if len(q.access) != nAccess {
+					return viol("C18.access", "request %d: the AccessHandler callbacks ran %d time(s), there are %d AccessHandlers in the chain", q.i, len(q.access), nAccess)
 				}
-				if q.access[0][0] != q.fake.status || q.access[0][1] != q.fake.accepted {
-					return viol("C18.access", "request %d: AccessHandler reported status=%d size=%d; the underlying ResponseWriter was given status %d and accepted %d body bytes; calls it received: %v", q.i, q.access[0][0], q.access[0][1], q.fake.status, q.fake.accepted, q.fake.calls)
+				for k := range q.access {
+					if q.access[k][0] != q.fake.status || q.access[k][1] != q.fake.accepted {
+						return viol("C18.access", "request %d: AccessHandler #%d (innermost first) reported status=%d size=%d; the underlying ResponseWriter was given status %d and accepted %d body bytes; calls it received: %v", q.i, k, q.access[k][0], q.access[k][1], q.fake.status, q.fake.accepted, q.fake.calls)
+					}
 				}
 			}
 		}
